@@ -280,6 +280,14 @@ void run_t(vf::Ctx& c)
         }
     }
 
+    {
+        // the same three statements for the equally weighted reference value
+        T const chie = hep::chi_square_dof<hep::weighted_equally>(rs.cbegin(), rs.cend());
+        if (m == 0) { VF_CHECK(c, chie == T(), "C13:chi-empty", "chi^2/dof (equal weights) of no results is " << vf::show(chie)); }
+        else if (m == 1) { VF_CHECK(c, std::isinf(chie) && chie > 0, "C13:chi-one", "chi^2/dof (equal weights) of one result is " << vf::show(chie)); }
+        else if (empties == 0) { VF_CHECK(c, chie >= T(), "C13:chi-negative", "chi^2/dof (equal weights) = " << vf::show(chie)); }
+    }
+
     // --- distributions: the same rule independently for every bin ---------------------------------
     bool with_dist = m >= 1 && t.chance(1, 3);
     if (with_dist)
